@@ -14,6 +14,9 @@ Notation alive := (alive cfg).
 Notation ldr := (ldr cfg).
 Notation InvA := (InvA cfg).
 Notation InvB := (InvB cfg).
+Notation versions_ok := (versions_ok cfg).
+Notation prefix_ok := (prefix_ok cfg).
+Notation phases_ok := (phases_ok cfg).
 
 (* ------------------------------------------------------------------ rcvSyncRespLoop without reading a message *)
 Lemma invB_rcvsync_exit : forall w s, InvA s -> InvB w s -> alive s (ldr s) ->
@@ -561,5 +564,637 @@ Proof.
     inversion Hs; subst s'; clear Hs. apply invB_rcvsync_restart; auto. lia.
   - apply Nat.ltb_ge in Elt. inversion Hs; subst s'; clear Hs. apply invB_rcvsync_remove; auto. lia.
 Qed.
+
+
+(* ------------------------------------------------------------------ typing of what is pending / in flight (from InvA) *)
+Lemma filter_p_shape : forall r q P C, Forall (pmA r q) P -> Forall (creq cfg) C -> filter is_p (P ++ C) = P.
+Proof.
+  intros r q P C HP HC. rewrite filter_app, (Forall_creq_filter_p cfg C HC), app_nil_r.
+  induction HP as [|m P Hm HP IH]; cbn; [reflexivity|]. rewrite (pmA_is_p _ _ _ Hm), IH. reflexivity.
+Qed.
+
+Lemma pend_pmA : forall s b m, InvA s -> alive s b -> In m (pend s b) -> pmA b (ldr s) m.
+Proof.
+  intros s b m IA Ab Hm. unfold pend in Hm. apply in_app_or in Hm. destruct Hm as [Hm|Hm].
+  - destruct (pcr s b) eqn:Epc; try (destruct Hm; fail).
+    destruct (a_loc cfg s IA b Ab) as (_ & L2 & _). destruct (L2 Epc) as (m0 & E & Hp). unfold pcr in Epc.
+    rewrite E in Hm. destruct Hm as [<-|[]]. exact Hp.
+  - destruct (a_q cfg s IA b Ab) as ((P & C & E & HP & HC & _) & _). rewrite E in Hm.
+    rewrite (filter_p_shape b (ldr s) P C HP HC) in Hm. rewrite Forall_forall in HP. apply HP. exact Hm.
+Qed.
+
+Lemma xs_sync_typed : forall s b, InvA s -> alive s (ldr s) -> alive s b ->
+  acks s (ldr s) b = [] -> puts s (ldr s) b = [] -> Forall sync_typed (xs s (ldr s) b).
+Proof.
+  intros s b IA Aq Ab Hacks Hputs. unfold xs. apply Forall_app. split; apply Forall_forall; intros m Hm; apply filter_In in Hm; destruct Hm as [Hin Hf].
+  - pose proof (a_q cfg s IA _ Aq) as (_ & _ & Rl). specialize (Rl eq_refl). rewrite Forall_forall in Rl.
+    destruct (Rl m Hin) as (_ & [[Ht _]|Ht]); [left; exact Ht|]. exfalso.
+    assert (Hi : In m (acks s (ldr s) b)).
+    { unfold acks. apply filter_In. split; [exact Hin|]. unfold is_ack. unfold from_b in Hf. rewrite Hf, Ht. reflexivity. }
+    rewrite Hacks in Hi. destruct Hi.
+  - destruct (pend_pmA s b m IA Ab Hin) as (_ & [Ht|Ht] & _); [|right; exact Ht]. exfalso.
+    assert (Hi : In m (puts s (ldr s) b)).
+    { unfold puts. apply filter_In. split; [exact Hin|]. unfold is_put. unfold from_b in Hf. rewrite Hf, Ht. reflexivity. }
+    rewrite Hputs in Hi. destruct Hi.
+Qed.
+
+
+(* ------------------------------------------------------------------ handlePrimary, Put: a new version is created *)
+Lemma invB_new_version : forall s k v n cq (F : key -> value),
+  InvA s -> alive s (ldr s) -> pcr s (ldr s) = HandlePrimary ->
+  (forall b, alive s b -> r_lastPutBody (rl s b) = BPut n cq /\ forall k0, fsv s b k0 = F k0) ->
+  (forall k0 v0, cq = Some (k0, v0) -> F k0 = v0) ->
+  (forall r m, alive s r -> In m (pend s r) ->
+      exists ver c, m_body m = BPut ver c /\ ver <= n /\ (ver = n -> c = cq)) ->
+  (forall m, In m (queue (net s (ldr s) RESP)) -> m_typ m = SYNC_RESP ->
+      (exists ver c, m_body m = BPut ver c /\ ver <= n /\ (ver = n -> c = cq)) /\
+      (alive s (m_from m) -> Kv (m_body m) <= K s (m_from m))) ->
+  (forall b, alive s b -> b <> ldr s -> acks s (ldr s) b = [] /\ puts s (ldr s) b = []) ->
+  InvB (mkWit (n + 1) (Some (k, v)) F cq)
+    (set_rl (set_fs s (upd_fs (fsv s) (ldr s) k v)) (ldr s)
+       (r_set_pc (r_set_idx (r_set_rs (r_set_resp (r_set_lpb (rl s (ldr s)) (BPut (n + 1) (Some (k, v))))
+                                                   (Some ACK_MSG_BODY) (Some PUT_RESP)) (others cfg (ldr s))) 1)
+                 SndReplicaReqLoop)).
+Proof.
+  intros s k v n cq F IA Aq Epc Hall HcqF Hpend Hresp Hnoack.
+  set (q := ldr s) in *.
+  set (l' := r_set_pc (r_set_idx (r_set_rs (r_set_resp (r_set_lpb (rl s q) (BPut (n + 1) (Some (k, v))))
+                                                   (Some ACK_MSG_BODY) (Some PUT_RESP)) (others cfg q)) 1) SndReplicaReqLoop).
+  set (s' := set_rl (set_fs s (upd_fs (fsv s) q k v)) q l').
+  set (w' := mkWit (n + 1) (Some (k, v)) F cq).
+  assert (Hn1 : pcr s q <> HandleBackup) by (rewrite Epc; discriminate).
+  assert (Lrl : rl s' q = l') by (unfold s'; simp_st; apply updf_same).
+  assert (Lrlo : forall r, r <> q -> rl s' r = rl s r) by (intros r Hr; unfold s'; simp_st; apply updf_other; exact Hr).
+  assert (Lpcr : pcr s' q = SndReplicaReqLoop) by (unfold pcr; rewrite Lrl; reflexivity).
+  assert (Lpa : forall r, pc_alive (pcr s' r) = pc_alive (pcr s r)).
+  { intros r. destruct (Nat.eq_dec r q) as [->|Hne]; [rewrite Lpcr, Epc; reflexivity | unfold pcr; rewrite Lrlo by exact Hne; reflexivity]. }
+  assert (LA : forall r, alive s' r <-> alive s r) by (intros r; unfold ProofsCrashA.alive; rewrite Lpa; tauto).
+  assert (Lpend : forall r, pend s' r = pend s r).
+  { intros r. destruct (Nat.eq_dec r q) as [->|Hne].
+    - rewrite !pend_not_hb; [reflexivity | exact Hn1 | rewrite Lpcr; discriminate].
+    - apply pend_ext; [unfold pcr; rewrite Lrlo by exact Hne; reflexivity | rewrite Lrlo by exact Hne; reflexivity | reflexivity]. }
+  assert (LKq : K s' q = n + 1) by (unfold K; rewrite Lrl; reflexivity).
+  assert (LKo : forall r, alive s r -> r <> q -> K s' r = n).
+  { intros r Ar Hr. unfold K. rewrite Lrlo by exact Hr. destruct (Hall r Ar) as [E _]. rewrite E. reflexivity. }
+  assert (Lnewq : isnew w' s' q).
+  { split; [rewrite Lrl; reflexivity|]. intros k0. unfold s'. simp_st. rewrite upd_fs_node.
+    unfold Fnew, w'. cbn. destruct (Hall q Aq) as [_ Hf]. rewrite Hf. reflexivity. }
+  assert (Loldo : forall r, alive s r -> r <> q -> isold w' s' r).
+  { intros r Ar Hr. destruct (Hall r Ar) as [E Hf]. split; [cbn; lia|]. split.
+    - rewrite Lrlo by exact Hr. rewrite E. cbn. f_equal. lia.
+    - intros k0. unfold s'. simp_st. rewrite upd_fs_other_node by exact Hr. apply Hf. }
+  assert (Hbody : forall B, (exists ver c, B = BPut ver c /\ ver <= n /\ (ver = n -> c = cq)) -> body_ok w' B /\ Kv B < n + 1).
+  { intros B (ver & c & -> & Hle & Hc). split; [|cbn; lia]. exists ver, c. cbn. repeat split; auto; try lia.
+    intros E. apply Hc. lia. }
+  assert (Hqmin : forall r, alive s r -> q <= r) by (intros r Ar; apply (alive_ge_ldr cfg s r IA Ar)).
+  constructor; [constructor | constructor | constructor]; replace (ldr s') with q by reflexivity.
+  - cbn. lia.
+  - cbn. eauto.
+  - exact HcqF.
+  - intros r A. apply LA in A. destruct (Nat.eq_dec r q) as [->|Hne]; [left; exact Lnewq | right; apply Loldo; assumption].
+  - intros r m A Hm. apply LA in A. rewrite Lpend in Hm. apply Hbody. apply (Hpend r m A Hm).
+  - intros m A Hm Ht. change (queue (net s' q RESP)) with (queue (net s q RESP)) in Hm.
+    destruct (Hresp m Hm Ht) as [B1 B2]. split; [apply Hbody; exact B1|].
+    intros A2. apply LA in A2. pose proof (Hqmin _ A2) as Hge.
+    pose proof (a_q cfg s IA q Aq) as (_ & _ & Rl). specialize (Rl eq_refl). rewrite Forall_forall in Rl.
+    destruct (Rl m Hm) as ([Hlt _] & _). fold q in Hlt.
+    rewrite (LKo _ A2) by lia. destruct B1 as (ver & c & -> & Hle & _). cbn. exact Hle.
+  - (* order: only the leader knows the new version *)
+    intros r1 r2 A1 A2 Hlt Hk. apply LA in A1. apply LA in A2. exfalso.
+    assert (Hne : r2 <> q) by (pose proof (Hqmin r1 A1); lia).
+    destruct Hk as [Hk|(m & Hm & Hk)].
+    + rewrite (LKo r2 A2 Hne) in Hk. cbn in Hk. lia.
+    + rewrite Lpend in Hm. destruct (Hbody _ (Hpend r2 m A2 Hm)) as [_ Hlt2]. cbn in Hk. lia.
+  - intros m _ _ _ _. left. exact LKq.
+  - rewrite Lrl. unfold l'. simp_st. intros _ _ _ r _ Hr. lia.
+  - intros _ H. exfalso. apply H. left. exact Lpcr.
+  - intros _ H. exfalso. apply H. left. exact Lpcr.
+  - intros _ HK. rewrite LKq in HK. cbn in HK. lia.
+  - intros _ H. exfalso. apply H. left. exact Lpcr.
+  - intros _ _. split; [exact Lnewq|]. split; [|split].
+    + intros b m Ab Hb Hm HK. apply LA in Ab. rewrite Lpend in Hm. exfalso.
+      destruct (Hbody _ (Hpend b m Ab Hm)) as [_ Hlt2]. cbn in HK. lia.
+    + intros m Hm Ht. change (queue (net s' q RESP)) with (queue (net s q RESP)) in Hm.
+      destruct (Hresp m Hm Ht) as [B1 _]. apply Hbody in B1. cbn. apply B1.
+    + intros b Ab Hb. apply LA in Ab. destruct (Hnoack b Ab Hb) as [Ha Hp].
+      exists (xs s q b), []. split.
+      { rewrite app_nil_r. unfold xs. rewrite Lpend. reflexivity. }
+      split; [apply xs_sync_typed; assumption|].
+      left. split.
+      { unfold rsent. rewrite Lpcr, Lrl. unfold l'. simp_st. intros [H|H]; [discriminate | destruct Ab as [[? ?] _]; lia]. }
+      split; [apply Loldo; assumption|]. split; [|reflexivity].
+      rewrite Lrl. unfold l'. simp_st. apply in_others. split; [apply Ab | exact Hb].
+Qed.
+
+(* ------------------------------------------------------------------ handlePrimary, Put: a new version is created *)
+Lemma invB_handlePrimary_put : forall w s k v lv,
+  InvA s -> InvB w s -> alive s (ldr s) -> pcr s (ldr s) = HandlePrimary ->
+  body_ver (r_lastPutBody (rl s (ldr s))) = Some lv ->
+  exists w', InvB w'
+    (set_rl (set_fs s (upd_fs (fsv s) (ldr s) k v)) (ldr s)
+       (r_set_pc (r_set_idx (r_set_rs (r_set_resp (r_set_lpb (rl s (ldr s)) (BPut (lv + 1) (Some (k, v))))
+                                                   (Some ACK_MSG_BODY) (Some PUT_RESP)) (others cfg (ldr s))) 1)
+                 SndReplicaReqLoop)).
+Proof.
+  intros w s k v lv IA IB Aq Epc Hlv.
+  set (q := ldr s) in *.
+  set (l' := r_set_pc (r_set_idx (r_set_rs (r_set_resp (r_set_lpb (rl s q) (BPut (lv + 1) (Some (k, v))))
+                                                   (Some ACK_MSG_BODY) (Some PUT_RESP)) (others cfg q)) 1) SndReplicaReqLoop).
+  set (s' := set_rl (set_fs s (upd_fs (fsv s) q k v)) q l').
+  pose proof IB as [V P Ph].
+  destruct (a_loc cfg s IA q Aq) as (_ & _ & L3 & _).
+  destruct L3 as (req & Hreq & Hcreq & Hss & Hqc); [unfold pcr in Epc; rewrite Epc; exact Logic.I|].
+  assert (HfP : filter is_p (queue (net s q REQ)) = []) by (apply (Forall_creq_filter_p cfg); exact Hqc).
+  assert (Hn1 : pcr s q <> HandleBackup) by (rewrite Epc; discriminate).
+  assert (Hpq : pend s q = []) by (rewrite pend_not_hb by exact Hn1; exact HfP).
+  assert (N1 : ~ insync s q) by (unfold insync; rewrite Epc; intuition discriminate).
+  assert (N2 : ~ inrepl s q) by (unfold inrepl; rewrite Epc; intuition discriminate).
+  assert (N3 : ~ owed s q).
+  { unfold owed, owedP. rewrite HfP, Epc, Hss. intros [H|[H|H]]; [apply H; reflexivity | discriminate | discriminate]. }
+  assert (G : forall b, alive s b -> b <> q -> K s q <= K s b).
+  { intros b Ab Hb. destruct (le_lt_dec (K s q) (K s b)) as [H|H]; [exact H|]. exfalso.
+    destruct (ph_main cfg w s Ph Aq N2 b Ab Hb H) as [X|(X & _)]; contradiction. }
+  assert (HKq : K s q = lv).
+  { unfold K. destruct (r_lastPutBody (rl s q)); cbn in *; try discriminate. congruence. }
+  (* the leader does not have anything of the latest version pending: if it is old nobody knows the latest version *)
+  assert (Hnk : K s q < Mx w -> forall r, alive s r -> ~ knows w s r).
+  { intros Hlt r Ar Hk.
+    assert (Hkq : knows w s q).
+    { destruct (Nat.eq_dec r q) as [->|Hne]; [exact Hk|]. destruct (alive_ge_ldr cfg s r IA Ar) as [_ Hge]. fold q in Hge.
+      apply (p_order cfg w s P q r Aq Ar); [lia | exact Hk]. }
+    destruct Hkq as [H|(m & Hm & _)]; [lia | rewrite Hpq in Hm; destruct Hm]. }
+  (* content of the leader's version *)
+  destruct (v_rep cfg w s V q Aq) as [Hqn|Hqo].
+  - (* the leader is at the latest version: every live replica is *)
+    pose proof (isnew_K w s q Hqn) as HK. destruct Hqn as [Hql Hqf].
+    assert (Hall : forall b, alive s b -> isnew w s b).
+    { intros b Ab. destruct (Nat.eq_dec b q) as [->|Hne]; [split; assumption|].
+      apply (K_Mx_isnew cfg w s b V Ab). pose proof (G b Ab Hne). destruct (K_le_Mx cfg w s b V Ab). lia. }
+    exists (mkWit (Mx w + 1) (Some (k, v)) (Fnew w) (cM w)).
+    assert (Elv : lv = Mx w) by lia. unfold s', l'. rewrite Elv.
+    apply (invB_new_version s k v (Mx w) (cM w) (Fnew w) IA Aq Epc).
+    + intros b Ab. apply (Hall b Ab).
+    + intros k0 v0 E. unfold Fnew. rewrite E. cbn. rewrite String.eqb_refl. reflexivity.
+    + intros r m Ar Hm. destruct (v_pend cfg w s V r m Ar Hm) as (ver & c & E & Hle & Hc & _). exists ver, c. auto.
+    + intros m Hm Ht. destruct (v_resp cfg w s V m Aq Hm Ht) as [(ver & c & E & Hle & Hc & _) B2]. split; [exists ver, c; auto | exact B2].
+    + intros b Ab Hb. apply (ph_noack cfg w s Ph Aq N2 b Ab Hb).
+  - (* the leader is one behind and nobody alive knows the latest version: it is overwritten *)
+    destruct (isold_K w s q Hqo) as [HK HMx1]. destruct Hqo as (_ & Hql & Hqf).
+    assert (Hlt : K s q < Mx w) by lia.
+    assert (Hall : forall b, alive s b -> isold w s b).
+    { intros b Ab. apply (K_lt_isold cfg w s b V Ab). destruct (K_le_Mx cfg w s b V Ab) as [H1 _].
+      destruct (Nat.eq_dec (K s b) (Mx w)) as [E|N]; [|lia]. exfalso. apply (Hnk Hlt b Ab). left. exact E. }
+    exists (mkWit (Mx w - 1 + 1) (Some (k, v)) (Fold w) (cO w)).
+    assert (Elv : lv = Mx w - 1) by lia. unfold s', l'. rewrite Elv.
+    apply (invB_new_version s k v (Mx w - 1) (cO w) (Fold w) IA Aq Epc).
+    + intros b Ab. destruct (Hall b Ab) as (_ & E & Hf). split; assumption.
+    + apply (v_cO cfg w s V).
+    + intros r m Ar Hm. destruct (v_pend cfg w s V r m Ar Hm) as (ver & c & E & Hle & _ & Hc). exists ver, c.
+      assert (ver <> Mx w).
+      { intros Ev. apply (Hnk Hlt r Ar). right. exists m. split; [exact Hm | rewrite E; cbn; exact Ev]. }
+      split; [exact E|]. split; [lia|]. intros Ev. apply Hc. lia.
+    + intros m Hm Ht. destruct (v_resp cfg w s V m Aq Hm Ht) as [(ver & c & E & Hle & _ & Hc) B2].
+      split; [|exact B2]. exists ver, c.
+      assert (ver <> Mx w).
+      { intros Ev. apply (Hnk Hlt q Aq). apply (p_resp cfg w s P m Aq Hm Ht). rewrite E. cbn. exact Ev. }
+      split; [exact E|]. split; [lia|]. intros Ev. apply Hc. lia.
+    + intros b Ab Hb. apply (ph_noack cfg w s Ph Aq N2 b Ab Hb).
+Qed.
+
+
+Lemma invB_handlePrimary : forall w s p ch s', InvA s -> InvB w s -> alive s p ->
+  pcr s p = HandlePrimary -> step_handlePrimary cfg ch s p = Ok s' -> exists w', InvB w' s'.
+Proof.
+  intros w s p ch s' IA IB Ap Epc Hs.
+  assert (Hq : p = ldr s).
+  { apply (nonbackup_is_ldr cfg s p IA Ap). rewrite Epc. cbn. tauto. }
+  subst p.
+  destruct (a_loc cfg s IA _ Ap) as (_ & _ & L3 & _).
+  destruct L3 as (m & Hreq & Hm & Hss & Hqc); [unfold pcr in Epc; rewrite Epc; exact Logic.I|].
+  unfold step_handlePrimary in Hs. rewrite Hreq in Hs. cbn [bindT] in Hs.
+  pose proof Hm as (Hsrc & Hfrom & Hok). rewrite Hsrc in Hs. cbn [srct_eqb negb] in Hs.
+  destruct (creq_cases cfg m Hm) as [(Ht & k & Hb) | (Ht & k & v & Hb)]; rewrite Ht, Hb in Hs; cbn [body_key body_value bindT] in Hs.
+  - inversion Hs; subst s'. exists w. apply invB_local_step; auto.
+    + apply pend_set_rl_nohb; [rewrite Epc; discriminate | discriminate].
+    + right. rewrite Epc. cbn. auto.
+  - destruct (body_ver (r_lastPutBody (rl s (ldr s)))) as [lv|] eqn:Elv; cbn [bindT] in Hs; [|discriminate].
+    inversion Hs; subst s'; clear Hs. apply (invB_handlePrimary_put w); auto.
+Qed.
+
+
+Lemma app_last_split : forall A (F T Sy : list A) (m x : A),
+  F ++ m :: T = Sy ++ [x] -> m <> x -> exists T', T = T' ++ [x] /\ Sy = F ++ m :: T'.
+Proof.
+  intros A F T Sy m x E Hne. destruct (exists_last (l := m :: T)) as (L & t & EL); [discriminate|].
+  destruct T as [|t0 T0].
+  - cbn in E. apply app_inj_tail in E. destruct E as [_ E]. contradiction.
+  - destruct (exists_last (l := t0 :: T0)) as (T' & t' & ET); [discriminate|]. rewrite ET in E.
+    replace (F ++ m :: T' ++ [t']) with ((F ++ m :: T') ++ [t']) in E by (rewrite <- app_assoc; reflexivity).
+    apply app_inj_tail in E. destruct E as [E1 E2]. exists T'. subst t'. rewrite ET. auto.
+Qed.
+
+(* ------------------------------------------------------------------ handleBackup, generic effect
+   p handles its oldest pending request m0: it may adopt the body of m0 (a Put always, a sync request
+   only if newer), sets shouldSync, goes back to replicaLoop, and answers the sender if that is the live leader *)
+Section HBSTEP.
+Variables (w : wit) (s s' : state) (p : node) (m0 : msg).
+Let q := ldr s.
+Hypothesis IA : InvA s.
+Hypothesis IB : InvB w s.
+Hypothesis Ap : alive s p.
+Hypothesis Epc : pcr s p = HandleBackup.
+Hypothesis Hreq : r_req (rl s p) = Some m0.
+Hypothesis S1 : forall r, r <> p -> rl s' r = rl s r.
+Hypothesis S2 : pcr s' p = ReplicaLoop.
+Hypothesis S3 : r_shouldSync (rl s' p) = true.
+Hypothesis S4 : forall r k, r <> p -> fsv s' r k = fsv s r k.
+Hypothesis S5 : forall r, queue (net s' r REQ) = queue (net s r REQ).
+Hypothesis S6 : ldr s' = ldr s.
+(* effect on p's version *)
+Hypothesis S8 :
+  (r_lastPutBody (rl s' p) = r_lastPutBody (rl s p) /\ (forall k, fsv s' p k = fsv s p k) /\
+   m_typ m0 = SYNC_REQ /\ Kv (m_body m0) <= K s p) \/
+  (exists ver k v, m_body m0 = BPut ver (Some (k, v)) /\ r_lastPutBody (rl s' p) = m_body m0 /\
+   (forall k0, fsv s' p k0 = upd_fs (fsv s) p k v p k0) /\ K s p <= ver /\ (m_typ m0 = SYNC_REQ -> K s p < ver)).
+
+Lemma hb_pmA : pmA p q m0.
+Proof. destruct (a_loc cfg s IA p Ap) as (_ & L2 & _). destruct (L2 Epc) as (m & E & H). rewrite Hreq in E. inversion E. subst. exact H. Qed.
+
+Lemma hb_pend_p : pend s p = m0 :: pend s' p.
+Proof.
+  rewrite (pend_hb s p m0 Epc Hreq). rewrite pend_not_hb by (rewrite S2; discriminate). rewrite S5. reflexivity.
+Qed.
+Lemma hb_pend_other : forall r, r <> p -> pend s' r = pend s r.
+Proof. intros r Hr. apply pend_ext; [unfold pcr; rewrite S1 by exact Hr; reflexivity | rewrite S1 by exact Hr; reflexivity | apply S5]. Qed.
+Lemma hb_pend_incl : forall r m, In m (pend s' r) -> In m (pend s r).
+Proof.
+  intros r m H. destruct (Nat.eq_dec r p) as [->|Hne]; [rewrite hb_pend_p; right; exact H | rewrite <- (hb_pend_other r Hne); exact H].
+Qed.
+Lemma hb_pa : forall r, pc_alive (pcr s' r) = pc_alive (pcr s r).
+Proof.
+  intros r. destruct (Nat.eq_dec r p) as [->|Hne]; [rewrite S2, Epc; reflexivity | unfold pcr; rewrite S1 by exact Hne; reflexivity].
+Qed.
+Lemma hb_alive : forall r, alive s' r <-> alive s r.
+Proof. intros r. unfold ProofsCrashA.alive. rewrite hb_pa. tauto. Qed.
+Lemma hb_K_other : forall r, r <> p -> K s' r = K s r.
+Proof. intros r Hr. unfold K. rewrite S1 by exact Hr. reflexivity. Qed.
+Lemma hb_isnew_other : forall r, r <> p -> (isnew w s' r <-> isnew w s r).
+Proof. intros r Hr. unfold isnew. rewrite S1 by exact Hr. split; intros [X Y]; split; auto; intros k0; [rewrite <- (S4 r k0 Hr) | rewrite (S4 r k0 Hr)]; apply Y. Qed.
+Lemma hb_isold_other : forall r, r <> p -> (isold w s' r <-> isold w s r).
+Proof. intros r Hr. unfold isold. rewrite S1 by exact Hr. split; intros (X & Y & Z); repeat split; auto; intros k0; [rewrite <- (S4 r k0 Hr) | rewrite (S4 r k0 Hr)]; apply Z. Qed.
+
+Lemma hb_body_ok : body_ok w (m_body m0).
+Proof. destruct IB as [V _ _]. apply (v_pend cfg w s V p m0 Ap). rewrite hb_pend_p. left. reflexivity. Qed.
+
+(* the version state of p after the step *)
+Lemma hb_version_p :
+  (isnew w s' p \/ isold w s' p) /\ K s p <= K s' p /\
+  (Kv (m_body m0) = Mx w -> K s' p = Mx w) /\
+  (K s' p = Mx w -> K s p = Mx w \/ Kv (m_body m0) = Mx w) /\
+  (Kv (m_body m0) < Mx w -> (isnew w s p -> isnew w s' p) /\ (isold w s p -> isold w s' p)).
+Proof.
+  destruct IB as [V _ _]. destruct (K_le_Mx cfg w s p V Ap) as [Kp1 Kp2].
+  destruct hb_body_ok as (ver0 & c0 & Eb & Hle & HcM & HcO).
+  destruct S8 as [(E1 & E2 & Et & Hk) | (ver & k & v & Eb2 & E1 & E2 & Hk & Hs)].
+  - (* unchanged *)
+    assert (HK : K s' p = K s p) by (unfold K; rewrite E1; reflexivity).
+    assert (Hn : isnew w s' p <-> isnew w s p).
+    { unfold isnew. rewrite E1. split; intros [X Y]; split; auto; intros k0; [rewrite <- E2 | rewrite E2]; apply Y. }
+    assert (Ho : isold w s' p <-> isold w s p).
+    { unfold isold. rewrite E1. split; intros (X & Y & Z); repeat split; auto; intros k0; [rewrite <- E2 | rewrite E2]; apply Z. }
+    rewrite HK, Hn, Ho. split; [apply (v_rep cfg w s V p Ap)|]. split; [lia|]. split; [intros; lia|]. split; [auto | tauto].
+  - (* adopted *)
+    rewrite Eb in Eb2. inversion Eb2; subst ver0 c0. clear Eb2.
+    assert (HK : K s' p = ver) by (unfold K; rewrite E1, Eb; reflexivity).
+    rewrite Eb. cbn [Kv]. rewrite HK.
+    destruct (Nat.eq_dec ver (Mx w)) as [Ev|Nv].
+    + (* the latest version *)
+      specialize (HcM Ev).
+      assert (Hnew : isnew w s' p).
+      { split; [rewrite E1, Eb, Ev, <- HcM; reflexivity|]. intros k0. rewrite E2, upd_fs_node. unfold Fnew. rewrite <- HcM. cbn.
+        destruct (v_rep cfg w s V p Ap) as [[_ Hf]|(_ & _ & Hf)]; rewrite Hf.
+        - unfold Fnew. rewrite <- HcM. cbn. destruct (String.eqb k0 k); reflexivity.
+        - reflexivity. }
+      split; [left; exact Hnew|]. split; [lia|]. split; [auto|]. split; [auto|]. intros; lia.
+    + (* one behind: idempotent *)
+      assert (Ev : ver + 1 = Mx w) by lia. specialize (HcO Ev).
+      assert (Hpo : isold w s p) by (apply (K_lt_isold cfg w s p V Ap); lia).
+      destruct Hpo as (H1 & Hl & Hf).
+      assert (Hold : isold w s' p).
+      { split; [exact H1|]. split; [rewrite E1, Eb, <- HcO; f_equal; lia|]. intros k0. rewrite E2, upd_fs_node, Hf.
+        destruct (String.eqb k0 k) eqn:Ek; [|reflexivity]. apply String.eqb_eq in Ek. subst k0.
+        symmetry. apply (v_cO cfg w s V). symmetry. exact HcO. }
+      split; [right; exact Hold|]. split; [lia|]. split; [intros; lia|]. split; [intros; lia|].
+      intros _. split; [|auto]. intros Hn. pose proof (isnew_K w s p Hn). lia.
+Qed.
+
+Lemma hb_knows_other : forall r, r <> p -> (knows w s' r <-> knows w s r).
+Proof. intros r Hr. unfold knows. rewrite (hb_K_other r Hr), (hb_pend_other r Hr). tauto. Qed.
+Lemma hb_knows_p : knows w s' p <-> knows w s p.
+Proof.
+  destruct IB as [V _ _]. destruct (K_le_Mx cfg w s p V Ap) as [Kp1 Kp2].
+  destruct hb_version_p as (Hv & Hmono & Hadopt & Hback & _).
+  assert (Kp' : K s' p <= Mx w).
+  { destruct Hv as [H|H]; [rewrite (isnew_K w s' p H); lia | destruct (isold_K w s' p H); lia]. }
+  unfold knows. rewrite hb_pend_p. split.
+  - intros [H|(m & Hm & Hk)].
+    + destruct (Hback H) as [H1|H1]; [left; exact H1 | right; exists m0; split; [left; reflexivity | exact H1]].
+    + right. exists m. split; [right; exact Hm | exact Hk].
+  - intros [H|(m & [<-|Hm] & Hk)].
+    + left. lia.
+    + left. apply Hadopt. exact Hk.
+    + right. exists m. auto.
+Qed.
+
+
+(* common parts of versions_ok / prefix_ok, given what happens to the leader's response queue *)
+Lemma hb_versions : 
+  (alive s q -> forall m, In m (queue (net s' q RESP)) -> m_typ m = SYNC_RESP ->
+     body_ok w (m_body m) /\ (alive s (m_from m) -> Kv (m_body m) <= K s' (m_from m))) ->
+  versions_ok w s'.
+Proof.
+  intros Hresp. destruct IB as [V P Ph]. constructor; try apply V.
+  - intros r A. apply hb_alive in A. destruct (Nat.eq_dec r p) as [->|Hne]; [apply hb_version_p|].
+    rewrite (hb_isnew_other r Hne), (hb_isold_other r Hne). apply (v_rep cfg w s V r A).
+  - intros r m A Hm. apply hb_alive in A. apply (v_pend cfg w s V r m A). apply hb_pend_incl. exact Hm.
+  - rewrite S6. fold q. intros m A Hm Ht. apply hb_alive in A. destruct (Hresp A m Hm Ht) as [B1 B2].
+    split; [exact B1|]. intros A2. apply hb_alive in A2. apply B2. exact A2.
+Qed.
+
+Lemma hb_K_mono : forall r, K s r <= K s' r.
+Proof.
+  intros r. destruct (Nat.eq_dec r p) as [->|Hne]; [apply hb_version_p | rewrite (hb_K_other r Hne); lia].
+Qed.
+
+Lemma hb_K_le : forall r, alive s r -> K s' r <= Mx w.
+Proof.
+  intros r A. destruct IB as [V _ _]. destruct (Nat.eq_dec r p) as [->|Hne].
+  - destruct hb_version_p as ([H|H] & _); [rewrite (isnew_K w s' p H); lia | destruct (isold_K w s' p H); lia].
+  - rewrite (hb_K_other r Hne). apply (K_le_Mx cfg w s r V A).
+Qed.
+
+Lemma hb_knows : forall r, knows w s' r <-> knows w s r.
+Proof. intros r. destruct (Nat.eq_dec r p) as [->|Hne]; [apply hb_knows_p | apply hb_knows_other; exact Hne]. Qed.
+
+Lemma hb_prefix :
+  (alive s q -> forall m, In m (queue (net s' q RESP)) -> m_typ m = SYNC_RESP -> Kv (m_body m) = Mx w -> knows w s q) ->
+  prefix_ok w s'.
+Proof.
+  intros Hresp. destruct IB as [V P Ph]. constructor.
+  - intros r1 r2 A1 A2 Hlt Hk. apply hb_alive in A1. apply hb_alive in A2. apply hb_knows. apply hb_knows in Hk.
+    apply (p_order cfg w s P r1 r2 A1 A2 Hlt Hk).
+  - rewrite S6. fold q. intros m A Hm Ht Hv. apply hb_alive in A. apply hb_knows. apply (Hresp A m Hm Ht Hv).
+  - rewrite S6. fold q. intros A Hp HK r Ar Hr. apply hb_alive in A. apply hb_alive in Ar.
+    assert (Hne : q <> p) by (intros E; rewrite E, S2 in Hp; destruct Hp; discriminate).
+    unfold pcr in Hp. rewrite (S1 q Hne) in Hp, Hr. rewrite (hb_K_other q Hne) in HK.
+    apply hb_knows. apply (p_loop cfg w s P A Hp HK r Ar Hr).
+Qed.
+
+
+(* token lists only look at pend and at the leader's response queue *)
+Lemma hb_sreqs_other : forall b, b <> p -> sreqs s' q b = sreqs s q b.
+Proof. intros b H. unfold sreqs. rewrite (hb_pend_other b H). reflexivity. Qed.
+Lemma hb_puts_other : forall b, b <> p -> puts s' q b = puts s q b.
+Proof. intros b H. unfold puts. rewrite (hb_pend_other b H). reflexivity. Qed.
+Lemma hb_sreqs_p : sreqs s q p = (if is_syncreq q m0 then [m0] else []) ++ sreqs s' q p.
+Proof. unfold sreqs. rewrite hb_pend_p. cbn [filter]. destruct (is_syncreq q m0); reflexivity. Qed.
+Lemma hb_puts_p : puts s q p = (if is_put q m0 then [m0] else []) ++ puts s' q p.
+Proof. unfold puts. rewrite hb_pend_p. cbn [filter]. destruct (is_put q m0); reflexivity. Qed.
+
+Section NORESP.
+Hypothesis SN : forall r, queue (net s' r RESP) = queue (net s r RESP).
+Hypothesis Hdead : alive s q -> m_from m0 <> q.
+
+Lemma hbn_not_from_q : alive s q -> is_syncreq q m0 = false /\ is_put q m0 = false /\ from_b q m0 = false.
+Proof.
+  intros A. pose proof (Hdead A) as H. apply Nat.eqb_neq in H.
+  unfold is_syncreq, is_put, from_b. rewrite H. auto.
+Qed.
+
+Lemma invB_hb_noresp : InvB w s'.
+Proof.
+  pose proof IB as [V P Ph].
+  constructor.
+  - apply hb_versions. rewrite SN. intros A m Hm Ht. destruct (v_resp cfg w s V m A Hm Ht) as [B1 B2].
+    split; [exact B1|]. intros A2. pose proof (hb_K_mono (m_from m)). specialize (B2 A2). lia.
+  - apply hb_prefix. rewrite SN. intros A m Hm Ht Hv. apply (p_resp cfg w s P m A Hm Ht Hv).
+  - destruct (Nat.eq_dec p q) as [Epq|Npq].
+    + (* the leader itself handled the request of a dead leader: it owes a sync *)
+      assert (Hpc' : pcr s' q = ReplicaLoop) by (rewrite <- Epq; exact S2).
+      assert (Hss' : r_shouldSync (rl s' q) = true) by (rewrite <- Epq; exact S3).
+      assert (Hpcq : pcr s q = HandleBackup) by (rewrite <- Epq; exact Epc).
+      assert (N1 : ~ insync s q) by (unfold insync; rewrite Hpcq; intuition discriminate).
+      assert (N2 : ~ inrepl s q) by (unfold inrepl; rewrite Hpcq; intuition discriminate).
+      assert (Hto : forall b, b <> q -> toks s' q b = toks s q b).
+      { intros b Hb. unfold toks, sresps. rewrite SN. rewrite hb_sreqs_other by (rewrite Epq; exact Hb). reflexivity. }
+      constructor; rewrite S6; fold q.
+      * intros _ _ b _ _ _. left. right. right. exact Hss'.
+      * intros A _ b Ab Hb. apply hb_alive in A. apply hb_alive in Ab. rewrite (Hto b Hb).
+        pose proof (ph_tok cfg w s Ph A N2 b Ab Hb) as H. fold q in H.
+        destruct (Nat.eq_dec (K s' q) (K s q)) as [EK|NK].
+        -- rewrite EK. destruct (toks s q b) as [|t rest]; [exact Logic.I|]. destruct H as [H1 H2]. split; [exact H1|].
+           intros Hlt. destruct (H2 Hlt) as (X & _). contradiction.
+        -- assert (HKlt : K s q < Mx w).
+           { pose proof (hb_K_mono q). pose proof (hb_K_le q A). lia. }
+           destruct (ph_count cfg w s Ph A HKlt b Ab Hb) as [_ C2]. fold q in C2.
+           destruct (toks s q b) as [|t rest]; [exact Logic.I|]. destruct C2 as (X & _); [discriminate | contradiction].
+      * intros A HK b Ab Hb. apply hb_alive in A. apply hb_alive in Ab. rewrite (Hto b Hb).
+        assert (HKlt : K s q < Mx w) by (pose proof (hb_K_mono q); lia).
+        destruct (ph_count cfg w s Ph A HKlt b Ab Hb) as [_ C2]. fold q in C2.
+        destruct (toks s q b) as [|t rest]; [split; [cbn; lia | intros H; congruence]|].
+        destruct C2 as (X & _); [discriminate | contradiction].
+      * intros A _ b Ab Hb. apply hb_alive in A. apply hb_alive in Ab.
+        unfold acks. rewrite SN. rewrite hb_puts_other by (rewrite Epq; exact Hb). apply (ph_noack cfg w s Ph A N2 b Ab Hb).
+      * intros _ [H|H]; rewrite Hpc' in H; discriminate H.
+    + (* a backup handled a request of a dead leader *)
+      assert (Hqp : q <> p) by auto.
+      assert (Hrlq : rl s' q = rl s q) by (apply S1; exact Hqp).
+      assert (Hpcq : pcr s' q = pcr s q) by (unfold pcr; rewrite Hrlq; reflexivity).
+      assert (HKq : K s' q = K s q) by (apply hb_K_other; exact Hqp).
+      assert (Hins : insync s' q <-> insync s q) by (unfold insync; rewrite Hpcq; tauto).
+      assert (Hinr : inrepl s' q <-> inrepl s q) by (unfold inrepl; rewrite Hpcq; tauto).
+      assert (HowP : owedP s' q <-> owedP s q) by (unfold owedP; rewrite S5; tauto).
+      assert (How : owed s' q <-> owed s q) by (unfold owed; rewrite HowP, Hpcq, Hrlq; tauto).
+      assert (Hsr : forall b, sresps s' q b = sresps s q b) by (intros b; unfold sresps; rewrite SN; reflexivity).
+      assert (Hac : forall b, acks s' q b = acks s q b) by (intros b; unfold acks; rewrite SN; reflexivity).
+      assert (Hsq : alive s q -> forall b, sreqs s' q b = sreqs s q b).
+      { intros A b. destruct (Nat.eq_dec b p) as [->|Hne]; [|apply hb_sreqs_other; exact Hne].
+        rewrite hb_sreqs_p. destruct (hbn_not_from_q A) as (E & _). rewrite E. reflexivity. }
+      assert (Hpu : alive s q -> forall b, puts s' q b = puts s q b).
+      { intros A b. destruct (Nat.eq_dec b p) as [->|Hne]; [|apply hb_puts_other; exact Hne].
+        rewrite hb_puts_p. destruct (hbn_not_from_q A) as (_ & E & _). rewrite E. reflexivity. }
+      assert (Hxs : alive s q -> forall b, xs s' q b = xs s q b).
+      { intros A b. unfold xs. rewrite SN. f_equal. destruct (Nat.eq_dec b p) as [->|Hne]; [|rewrite (hb_pend_other b Hne); reflexivity].
+        rewrite hb_pend_p. cbn [filter]. destruct (hbn_not_from_q A) as (_ & _ & E). rewrite E. reflexivity. }
+      assert (Hto : alive s q -> forall b, toks s' q b = toks s q b).
+      { intros A b. unfold toks. rewrite Hsr, (Hsq A). reflexivity. }
+      constructor; rewrite S6; fold q.
+      * intros A Hnr b Ab Hb HK. apply hb_alive in A. apply hb_alive in Ab. rewrite Hinr in Hnr. rewrite HKq in HK.
+        assert (HK0 : K s b < K s q) by (pose proof (hb_K_mono b); lia).
+        rewrite How, Hins, Hrlq, Hsr, (Hsq A), HKq, Hpcq. apply (ph_main cfg w s Ph A Hnr b Ab Hb HK0).
+      * intros A Hnr b Ab Hb. apply hb_alive in A. apply hb_alive in Ab. rewrite Hinr in Hnr.
+        pose proof (ph_tok cfg w s Ph A Hnr b Ab Hb) as H. fold q in H. rewrite (Hto A), HKq.
+        destruct (toks s q b) as [|t rest]; [exact Logic.I|]. destruct H as [H1 H2]. split; [exact H1|].
+        intros Hlt. destruct (H2 Hlt) as (X1 & X2 & X3). rewrite Hins, Hrlq, HowP. auto.
+      * intros A HK b Ab Hb. apply hb_alive in A. apply hb_alive in Ab. rewrite HKq in HK.
+        rewrite (Hto A), Hins, Hrlq, Hpcq. apply (ph_count cfg w s Ph A HK b Ab Hb).
+      * intros A Hnr b Ab Hb. apply hb_alive in A. apply hb_alive in Ab. rewrite Hinr in Hnr.
+        rewrite Hac, (Hpu A). apply (ph_noack cfg w s Ph A Hnr b Ab Hb).
+      * intros A Hr. apply hb_alive in A. rewrite Hinr in Hr. destruct (ph_repl cfg w s Ph A Hr) as (R1 & R2 & R3 & R4).
+        split; [apply (hb_isnew_other q Hqp); exact R1|]. split; [|split].
+        -- intros b m Ab Hb Hm. apply hb_alive in Ab. apply (R2 b m Ab Hb). apply hb_pend_incl. exact Hm.
+        -- rewrite SN. exact R3.
+        -- intros b Ab Hb. apply hb_alive in Ab. destruct (R4 b Ab Hb) as (Sy & Pu & E & HSy & Hst). fold q in E, Hst.
+           exists Sy, Pu. rewrite (Hxs A). split; [exact E|]. split; [exact HSy|].
+           assert (Hrs : rsent s' q b <-> rsent s q b) by (unfold rsent; rewrite Hpcq, Hrlq; tauto).
+           assert (Hst' : (isold w s b -> isold w s' b) /\ (isnew w s b -> isnew w s' b)).
+           { destruct (Nat.eq_dec b p) as [->|Hne]; [|split; [apply hb_isold_other | apply hb_isnew_other]; exact Hne].
+             assert (Hlt : Kv (m_body m0) < Mx w).
+             { pose proof (body_ok_Kv w _ hb_body_ok) as Hle.
+               destruct (Nat.eq_dec (Kv (m_body m0)) (Mx w)) as [E0|N0]; [|lia]. exfalso.
+               destruct (R2 p m0 Ab Hb) as [Hf _]; [rewrite hb_pend_p; left; reflexivity | exact E0|].
+               apply (Hdead A). exact Hf. }
+             destruct hb_version_p as (_ & _ & _ & _ & H). destruct (H Hlt). split; assumption. }
+           rewrite Hrs, Hrlq. destruct Hst' as [Ho Hn].
+           destruct Hst as [(X1 & X2 & X3)|[(X1 & X2 & X3)|[(X1 & X2 & X3)|(X1 & X2 & X3)]]];
+             [left | right; left | right; right; left | right; right; right]; auto.
+Qed.
+
+End NORESP.
+
+
+Section RESPOND.
+Variable resp : msg.
+Hypothesis Aq : alive s q.
+Hypothesis Hfrom : m_from m0 = q.
+Hypothesis Hrfrom : m_from resp = p.
+Hypothesis SR1 : queue (net s' q RESP) = queue (net s q RESP) ++ [resp].
+
+Lemma hbr_pq : p <> q.
+Proof. pose proof hb_pmA as (_ & _ & _ & _ & H & _). rewrite Hfrom in H. lia. Qed.
+
+Lemma hbr_rlq : rl s' q = rl s q. Proof. apply S1. pose proof hbr_pq. auto. Qed.
+Lemma hbr_pcq : pcr s' q = pcr s q. Proof. unfold pcr. rewrite hbr_rlq. reflexivity. Qed.
+Lemma hbr_Kq : K s' q = K s q. Proof. apply hb_K_other. pose proof hbr_pq. auto. Qed.
+Lemma hbr_from : from_b q m0 = true. Proof. unfold from_b. rewrite Hfrom. apply Nat.eqb_refl. Qed.
+
+Lemma hbr_filter_other : forall (f : node -> msg -> bool) b,
+  (forall x y, f x y = true -> m_from y = x) -> b <> p ->
+  filter (f b) (queue (net s' q RESP)) = filter (f b) (queue (net s q RESP)).
+Proof.
+  intros f b Hf Hb. rewrite SR1, filter_app_single. destruct (f b resp) eqn:E; [|apply app_nil_r].
+  apply Hf in E. congruence.
+Qed.
+Lemma hbr_sresps_other : forall b, b <> p -> sresps s' q b = sresps s q b.
+Proof. intros b H. unfold sresps. apply hbr_filter_other; [exact is_syncresp_from | exact H]. Qed.
+Lemma hbr_acks_other : forall b, b <> p -> acks s' q b = acks s q b.
+Proof. intros b H. unfold acks. apply hbr_filter_other; [exact is_ack_from | exact H]. Qed.
+Lemma hbr_xs_other : forall b, b <> p -> xs s' q b = xs s q b.
+Proof.
+  intros b H. unfold xs. rewrite (hb_pend_other b H). f_equal. apply hbr_filter_other; [exact from_b_from | exact H].
+Qed.
+Lemma hbr_toks_other : forall b, b <> p -> toks s' q b = toks s q b.
+Proof. intros b H. unfold toks. rewrite (hbr_sresps_other b H), (hb_sreqs_other b H). reflexivity. Qed.
+(* everything in flight between q and p: the handled request is replaced by the answer *)
+Lemma hbr_xs_p : exists F T, xs s q p = F ++ m0 :: T /\ xs s' q p = F ++ resp :: T /\
+  (forall t, In t T -> In t (pend s p)).
+Proof.
+  exists (filter (from_b p) (queue (net s q RESP))), (filter (from_b q) (pend s' p)). unfold xs.
+  rewrite hb_pend_p. cbn [filter]. rewrite hbr_from. split; [reflexivity|]. split.
+  - rewrite SR1, filter_app_single. unfold from_b at 2. rewrite Hrfrom, Nat.eqb_refl, <- app_assoc. reflexivity.
+  - intros t Ht. apply filter_In in Ht. right. apply Ht.
+Qed.
+
+
+(* ---- the handled request was a SYNC_REQ of the live leader *)
+Section RSYNC.
+Hypothesis Ht0 : m_typ m0 = SYNC_REQ.
+Hypothesis Htr : m_typ resp = SYNC_RESP.
+Hypothesis Hbr : m_body resp = r_lastPutBody (rl s' p).
+
+Lemma hbs_Kv_resp : Kv (m_body resp) = K s' p. Proof. rewrite Hbr. reflexivity. Qed.
+Lemma hbs_Kv_le : Kv (m_body m0) <= K s' p.
+Proof.
+  destruct S8 as [(E1 & _ & _ & Hk) | (ver & k & v & Eb & E1 & _)].
+  - unfold K. rewrite E1. exact Hk.
+  - unfold K. rewrite E1. lia.
+Qed.
+Lemma hbs_is_syncreq : is_syncreq q m0 = true.
+Proof. unfold is_syncreq. rewrite Hfrom, Ht0, Nat.eqb_refl. reflexivity. Qed.
+Lemma hbs_is_put : is_put q m0 = false.
+Proof. unfold is_put. rewrite Ht0. apply andb_false_r. Qed.
+Lemma hbs_sresps_p : sresps s' q p = sresps s q p ++ [resp].
+Proof. unfold sresps. rewrite SR1, filter_app_single. unfold is_syncresp at 2. rewrite Hrfrom, Htr, Nat.eqb_refl. reflexivity. Qed.
+Lemma hbs_acks : forall b, acks s' q b = acks s q b.
+Proof. intros b. unfold acks. rewrite SR1, filter_app_single. unfold is_ack at 2. rewrite Htr, andb_false_r. apply app_nil_r. Qed.
+Lemma hbs_puts : forall b, puts s' q b = puts s q b.
+Proof.
+  intros b. destruct (Nat.eq_dec b p) as [->|Hne]; [|apply hb_puts_other; exact Hne].
+  rewrite hb_puts_p, hbs_is_put. reflexivity.
+Qed.
+(* p's sync tokens: the request at the head of its requests becomes the last of its answers *)
+Lemma hbs_toks_p : toks s q p = sresps s q p ++ m0 :: sreqs s' q p /\ toks s' q p = sresps s q p ++ resp :: sreqs s' q p.
+Proof.
+  unfold toks. rewrite hb_sreqs_p, hbs_is_syncreq, hbs_sresps_p, <- app_assoc. split; reflexivity.
+Qed.
+
+Lemma hbs_versions : versions_ok w s'.
+Proof.
+  destruct IB as [V P Ph]. apply hb_versions. intros _ m Hm Ht. rewrite SR1 in Hm. apply in_app_or in Hm.
+  destruct Hm as [Hm|[<-|[]]].
+  - destruct (v_resp cfg w s V m Aq Hm Ht) as [B1 B2]. split; [exact B1|]. intros A2.
+    pose proof (hb_K_mono (m_from m)). specialize (B2 A2). lia.
+  - split; [|intros _; rewrite Hrfrom, hbs_Kv_resp; lia].
+    rewrite Hbr. destruct hb_version_p as ([[H _]|(H0 & H & _)] & _); rewrite H.
+    + exists (Mx w), (cM w). repeat split; auto. lia.
+    + exists (Mx w - 1), (cO w). repeat split; auto; lia.
+Qed.
+
+Lemma hbs_prefix : prefix_ok w s'.
+Proof.
+  destruct IB as [V P Ph]. apply hb_prefix. intros _ m Hm Ht Hv. rewrite SR1 in Hm. apply in_app_or in Hm.
+  destruct Hm as [Hm|[<-|[]]]; [apply (p_resp cfg w s P m Aq Hm Ht Hv)|].
+  rewrite hbs_Kv_resp in Hv.
+  assert (Hk : knows w s p) by (apply hb_knows_p; left; exact Hv).
+  pose proof hb_pmA as (_ & _ & _ & _ & Hlt & _). rewrite Hfrom in Hlt.
+  apply (p_order cfg w s P q p Aq Ap Hlt Hk).
+Qed.
+
+
+Lemma invB_hb_sync : InvB w s'.
+Proof.
+  pose proof IB as [V P Ph]. pose proof hbr_pq as Hpq.
+  assert (Hqp : q <> p) by auto.
+  pose proof hbr_rlq as Hrlq. pose proof hbr_pcq as Hpcq. pose proof hbr_Kq as HKq.
+  assert (Hins : insync s' q <-> insync s q) by (unfold insync; rewrite Hpcq; tauto).
+  assert (Hinr : inrepl s' q <-> inrepl s q) by (unfold inrepl; rewrite Hpcq; tauto).
+  assert (HowP : owedP s' q <-> owedP s q) by (unfold owedP; rewrite S5; tauto).
+  assert (How : owed s' q <-> owed s q) by (unfold owed; rewrite HowP, Hpcq, Hrlq; tauto).
+  destruct hbs_toks_p as [Etp Etp'].
+  pose proof hbs_Kv_le as Hle. pose proof hbs_Kv_resp as Hkr.
+  constructor; [exact hbs_versions | exact hbs_prefix | constructor]; rewrite S6; fold q.
+  - (* main *)
+    intros _ Hnr b Ab Hb HK. apply hb_alive in Ab. rewrite Hinr in Hnr. rewrite HKq in HK.
+    assert (HK0 : K s b < K s q) by (pose proof (hb_K_mono b); lia).
+    destruct (ph_main cfg w s Ph Aq Hnr b Ab Hb HK0) as [H|(H1 & H2 & H3 & H4)]; [left; apply How; exact H|]. fold q in H2, H3, H4.
+    destruct (Nat.eq_dec b p) as [->|Hne].
+    + (* p itself: either the request was fresh and p adopted it (then p is not behind), or it was stale and
+         the leader still has a request of a dead leader in its queue *)
+      pose proof (ph_tok cfg w s Ph Aq Hnr p Ap Hpq) as Ht. fold q in Ht.
+      rewrite Etp, H3 in Ht. cbn [app] in Ht. destruct Ht as [_ Ht].
+      destruct (le_lt_dec (K s q) (Kv (m_body m0))) as [Hge|Hlt]; [exfalso; lia|].
+      destruct (Ht Hlt) as (_ & _ & X). left. apply How. left. exact X.
+    + right. rewrite Hins, Hrlq, (hbr_sresps_other b Hne), (hb_sreqs_other b Hne), HKq, Hpcq. auto.
+  - admit_tok.
+  - admit_count.
+  - admit_noack.
+  - admit_repl.
+Qed.
+
+End RSYNC.
+
+End RESPOND.
+
+End HBSTEP.
 
 End CRC.
